@@ -62,14 +62,32 @@ def _mk_recorder():
     return R()
 
 
-def run_single_history(values, minimize, batches, rec, tag):
+BATCH_FORMS = ("list", "generator", "iter", "tuple", "mixed")
+
+
+def as_batch(chunk, form, k=0):
+    """tracker.evaluate() takes an Iterable[Individual]: the batch in the given form."""
+    if form == "mixed":
+        form = ("list", "generator", "iter", "tuple")[k % 4]
+    if form == "generator":
+        return (x for x in chunk)
+    if form == "iter":
+        return iter(list(chunk))
+    if form == "tuple":
+        return tuple(chunk)
+    return list(chunk)
+
+
+def run_single_history(values, minimize, batches, rec, tag, form="list", number_form=None):
     from geneticengine.evaluation.sequential import SequentialEvaluator
     from geneticengine.evaluation.tracker import SingleObjectiveProgressTracker
     from geneticengine.problems import SingleObjectiveProblem
     from geneticengine.solutions.individual import Individual
 
+    from vk.values import as_form
+
     rep = TableRep()
-    problem = SingleObjectiveProblem(lambda p: p[1], minimize=minimize)
+    problem = SingleObjectiveProblem(lambda p: as_form(p[1], number_form), minimize=minimize)
     spy = _mk_recorder()
     tracker = SingleObjectiveProgressTracker(problem, SequentialEvaluator(), recorders=[spy])
     inds = [Individual((i, v), rep) for i, v in enumerate(values)]
@@ -81,7 +99,7 @@ def run_single_history(values, minimize, batches, rec, tag):
         chunk = inds[pos : pos + b]
         if not chunk:
             break
-        tracker.evaluate(chunk)
+        tracker.evaluate(as_batch(chunk, form, pos))
         for ind in chunk:
             v = ind.genotype[1]
             if ref_best is None or better(v, ref_best.genotype[1], minimize):
@@ -171,23 +189,26 @@ class RandomHistories(Facet):
         return (300, 2) if tier == "quick" else (1500, 16)
 
     def strategy(self, tier):
-        from vk.values import exact_int_values, single_objective_values
+        from vk.values import NUMBER_FORMS, exact_int_values, single_objective_values
 
         val = single_objective_values()
         single = st.builds(
-            lambda vs, m, bs: {"kind": "single", "values": vs, "minimize": m, "batches": bs},
+            lambda vs, m, bs, fm, nf: {"kind": "single", "values": vs, "minimize": m, "batches": bs, "form": fm, "number_form": nf},
             st.lists(val, min_size=1, max_size=12),
             st.booleans(),
             st.lists(st.integers(1, 5), min_size=12, max_size=12),
+            st.sampled_from(BATCH_FORMS),
+            st.sampled_from(NUMBER_FORMS),
         )
         nobj = st.integers(2, 3)
         multi = nobj.flatmap(
             lambda k: st.builds(
-                lambda vs, m, agg, bs: {"kind": "multi", "values": vs, "minimize": m, "aggregate": agg, "batches": bs},
+                lambda vs, m, agg, bs, fm: {"kind": "multi", "values": vs, "minimize": m, "aggregate": agg, "batches": bs, "form": fm},
                 st.lists(st.lists(exact_int_values(-2, 2), min_size=k, max_size=k), min_size=1, max_size=10),
                 st.one_of(st.booleans(), st.lists(st.booleans(), min_size=k, max_size=k)),
                 st.sampled_from(["default", "first", "sum", "neg-last"]),
                 st.lists(st.integers(1, 4), min_size=10, max_size=10),
+                st.sampled_from(BATCH_FORMS),
             ),
         )
         return st.one_of(single, multi)
@@ -196,7 +217,7 @@ class RandomHistories(Facet):
         rec.label("kind:" + case["kind"])
         rec.sample(case, limit=2)
         if case["kind"] == "single":
-            run_single_history(case["values"], case["minimize"], case["batches"], rec, "generated")
+            run_single_history(case["values"], case["minimize"], case["batches"], rec, "generated", case.get("form", "list"), case.get("number_form"))
             if _nontrivial_history(case["values"], case["minimize"]):
                 rec.nontrivial(case)
             return
@@ -231,7 +252,7 @@ class RandomHistories(Facet):
             chunk = inds[pos : pos + b]
             if not chunk:
                 break
-            tracker.evaluate(chunk)
+            tracker.evaluate(as_batch(chunk, case.get("form", "list"), pos))
             pos += len(chunk)
             # judge flags of this chunk one by one
             for ind, flag in spy.events[seen_events:]:
@@ -469,7 +490,7 @@ def replay_tracker_history(ops, rec):
             continue
         if not batch:
             continue
-        tracker.evaluate(batch)
+        tracker.evaluate(as_batch(batch, op[2] if len(op) > 2 else "list"))
         exp_flags = []
         for ind in batch:
             v = ind.genotype[1]
@@ -535,9 +556,9 @@ class TrackerMachineFacet(Facet):
             def new(self, v):
                 self.ops.append(["new", v])
 
-            @rule(k=st.integers(1, 4))
-            def flush(self, k):
-                self.ops.append(["flush", k])
+            @rule(k=st.integers(1, 4), form=st.sampled_from(BATCH_FORMS[:4]))
+            def flush(self, k, form):
+                self.ops.append(["flush", k, form])
 
             @rule(i=st.integers(0, 10))
             def again(self, i):
